@@ -19,8 +19,7 @@ rooted heap : `{"objs": [object…], "root": value}` or `{"ops": [op-code…]}` 
 open Lean Heph.Pickle
 namespace Driver.Pickle
 
-def hashReads (m q : String) : Bool :=
-  Heph.Generated.PickleClasses.table.any fun e => e.1 == m && e.2.1 == q && (e.2.2.1 || e.2.2.2)
+def hashReads (m q : String) : Bool := hashReadsOf Heph.Generated.PickleClasses.table m q
 
 def parseVal (j : Json) : Except String Val :=
   match j with
